@@ -38,6 +38,7 @@ import (
 	"sync"
 	"sync/atomic"
 	"testing"
+	"time"
 
 	"go.minekube.com/gate/pkg/edition/java/proxy/verifh/lib"
 )
@@ -55,6 +56,22 @@ type monitor struct {
 	r      *lib.Run
 	mu     sync.Mutex
 	byPrim map[string]*stats
+	vmu    sync.Mutex
+	vcount map[string]int
+}
+
+// violate reports through lib.Run.Violation, but builds the witness only for the first few
+// occurrences of a signature (the run keeps three replay files per signature anyway).
+func (m *monitor) violate(sig string, build func() (string, map[string]any)) {
+	m.vmu.Lock()
+	m.vcount[sig]++
+	n := m.vcount[sig]
+	m.vmu.Unlock()
+	if n > 3 {
+		return
+	}
+	what, w := build()
+	m.r.Violation(sig, what, w)
 }
 
 func (m *monitor) st(p *prim) *stats {
@@ -149,9 +166,10 @@ func (m *monitor) checkValue(p *prim, v any, rng *rand.Rand) {
 	if p.ref != nil && p.RefSource != "" {
 		want := p.ref(v)
 		if !bytes.Equal(enc, want) {
-			r.Violation(p.WriteFn+"-encoding-differs-from-reference",
-				fmt.Sprintf("%s wrote %d bytes, the independent encoder (%s) writes %d; first difference at byte %d", p.WriteFn, len(enc), p.RefSource, len(want), firstDiff(enc, want)),
-				m.witness(p, v, enc, map[string]any{"reference_hex_head": hex.EncodeToString(head(want, 96)), "reference_len": len(want), "reference": p.RefSource}))
+			m.violate(p.WriteFn+"-encoding-differs-from-reference", func() (string, map[string]any) {
+				return fmt.Sprintf("%s wrote %d bytes, the independent encoder (%s) writes %d; first difference at byte %d", p.WriteFn, len(enc), p.RefSource, len(want), firstDiff(enc, want)),
+					m.witness(p, v, enc, map[string]any{"reference_hex_head": hex.EncodeToString(head(want, 96)), "reference_len": len(want), "reference": p.RefSource})
+			})
 		} else {
 			s.crossOK.Add(1)
 		}
@@ -207,8 +225,10 @@ func (m *monitor) checkValue(p *prim, v any, rng *rand.Rand) {
 					sig += "-at-end-of-input"
 				}
 			}
-			r.Violation(sig, fmt.Sprintf("%s(%s(v)) over a %s reader: %s", p.ReadFn, p.WriteFn, rkName[kind], res.detail),
-				m.witness(p, v, enc, map[string]any{"reader_kind": rkName[kind], "trailing_bytes": ti == 0, "detail": res.detail}))
+			m.violate(sig, func() (string, map[string]any) {
+				return fmt.Sprintf("%s(%s(v)) over a %s reader: %s", p.ReadFn, p.WriteFn, rkName[kind], res.detail),
+					m.witness(p, v, enc, map[string]any{"reader_kind": rkName[kind], "trailing_bytes": ti == 0, "detail": res.detail})
+			})
 		}
 	}
 
@@ -247,13 +267,16 @@ func (m *monitor) checkValue(p *prim, v any, rng *rand.Rand) {
 			s.prefixes.Add(1)
 			switch {
 			case o.Panic != "":
-				r.Violation(p.ReadFn+"-panics-on-strict-prefix", fmt.Sprintf("%s panicked on the first %d of %d bytes of a valid encoding", p.ReadFn, k, len(enc)),
-					m.witness(p, v, enc, map[string]any{"prefix_len": k, "reader_kind": rkName[kind], "panic": lib.Trunc(o.Panic, 1500)}))
+				m.violate(p.ReadFn+"-panics-on-strict-prefix", func() (string, map[string]any) {
+					return fmt.Sprintf("%s panicked on the first %d of %d bytes of a valid encoding", p.ReadFn, k, len(enc)),
+						m.witness(p, v, enc, map[string]any{"prefix_len": k, "reader_kind": rkName[kind], "panic": lib.Trunc(o.Panic, 1500)})
+				})
 			case o.Err == nil:
 				s.prefixAccep.Add(1)
-				r.Violation(p.ReadFn+"-accepts-strict-prefix",
-					fmt.Sprintf("%s returned %s and a nil error for the first %d of %d bytes of the encoding of %s", p.ReadFn, p.show(o.V), k, len(enc), p.show(v)),
-					m.witness(p, v, enc, map[string]any{"prefix_len": k, "reader_kind": rkName[kind], "returned": p.show(o.V), "consumed": o.Consumed}))
+				m.violate(p.ReadFn+"-accepts-strict-prefix", func() (string, map[string]any) {
+					return fmt.Sprintf("%s returned %s and a nil error for the first %d of %d bytes of the encoding of %s", p.ReadFn, p.show(o.V), k, len(enc), p.show(v)),
+						m.witness(p, v, enc, map[string]any{"prefix_len": k, "reader_kind": rkName[kind], "returned": p.show(o.V), "consumed": o.Consumed})
+				})
 			default:
 				s.prefixErrs.Add(1)
 			}
@@ -344,10 +367,13 @@ func TestC03(t *testing.T) {
 	r.Assume("github.com/Tnze/go-mc/net/packet v1.20.2 encodes the vanilla wire format of the primitive types; the 1.7 extended short is as the statement describes it (2-byte short, top bit = a third byte follows)")
 	r.Assume("runtime.MemStats.TotalAlloc sampled in a single-goroutine phase measures what one reader call allocated")
 	r.Set("pairs", names)
-	m := &monitor{r: r, byPrim: map[string]*stats{}}
+	m := &monitor{r: r, byPrim: map[string]*stats{}, vcount: map[string]int{}}
 
 	// phase 1 (single goroutine): hostile length prefixes with allocation canary
+	t0 := time.Now()
 	m.hostilePhase()
+	r.Set("phase_hostile_lengths_s", time.Since(t0).Seconds())
+	t0 = time.Now()
 
 	// phase 2: fixed boundary values of every pair
 	frng := r.Rng("fixed")
@@ -357,6 +383,9 @@ func TestC03(t *testing.T) {
 			m.checkValue(p, v, frng)
 		}
 	}
+
+	r.Set("phase_fixed_values_s", time.Since(t0).Seconds())
+	t0 = time.Now()
 
 	// phase 3: PRNG-drawn values, blocks handed to workers
 	total := r.N(200000, 5000000)
@@ -408,6 +437,7 @@ func TestC03(t *testing.T) {
 		}()
 	}
 	wg.Wait()
+	r.Set("phase_random_values_s", time.Since(t0).Seconds())
 
 	per := map[string]any{}
 	var pfx, pfxErr, pfxAcc, rts, cross int64
